@@ -1,5 +1,6 @@
 """C01 -- returned designs are legal assignments under the geo eligibility matrix."""
 from . import searchfam, search_oracles as so
+from . import common
 
 RULE = ('seeded cases: panel of 1-6 geos (quick) / up to 7 (thorough) x 14-30 dates, eligibility rows drawn from the seven '
         'legal types (free / mixed / fixed-heavy / no-treatment-eligible / no-control-eligible mixes, geos missing from the '
@@ -25,7 +26,7 @@ def must_include_heavy(ck, tier):
   import random
   from . import search
   out = []
-  for j in range(8 if tier == 'quick' else 100):
+  for j in range(common.sz(tier, 8, 100)):
     rng = random.Random(ck.seed * 23 + j)
     c = search.gen_case(ck.seed * 23 + 700 + j, tier, max_geos=6)
     n = len(c['rows'])
